@@ -74,6 +74,11 @@ func SchCorpus() []SchCorpusCase {
 	add(ke(), 't', M(E("", Str("Aa"))), "kinded union with int-enum member")
 	add(ke2(), 't', M(E("", Str("Bb"))), "kinded union with int-enum member, no string member")
 	add(sp(), 't', M(E("", Str("abc"))), "stringprefix")
+	{
+		u := SchUnion('p', SchM("simple", 's', SchScalar('S')), SchM("simpleton", 's', SchScalar('S')))
+		u.Delim = "::"
+		add(u, 't', M(E("", Str("a::b"))), "delimited stringprefix (multi-character delimiter)")
+	}
 	add(sj(), 't', M(E("a", Str("q")), E("b", Str("Aa"))), "stringjoin with enum")
 	add(en(), 't', Str("Aa"), "string enum")
 	add(ei(), 't', Str("Bb"), "int enum")
@@ -123,6 +128,21 @@ func SchCorpus() []SchCorpusCase {
 	add(sj(), 'r', Str("q:Aa"), "stringjoin with enum member name")
 	add(sp(), 'r', Str("zz"), "stringprefix unknown prefix")
 	add(kd(), 'r', Bool(true), "kinded union without member for kind")
+	spd := func() *SchTy {
+		u := SchUnion('p', SchM("simple", 's', SchScalar('S')), SchM("simpleton", 's', SchScalar('S')), SchM("complex", 's', SchJoin(",", SchF("a", S), SchF("b", S))))
+		u.Delim = ":"
+		return u
+	}
+	add(spd(), 'r', Str("simple:whee"), "delimited stringprefix ok")
+	add(spd(), 'r', Str("simpleton:x:y"), "delimited stringprefix, discriminant extending another, rest with delimiter")
+	add(spd(), 'r', Str("complex:a,b"), "delimited stringprefix holding a stringjoin struct")
+	add(spd(), 'r', Str("simple:"), "delimited stringprefix, empty rest")
+	add(spd(), 'r', Str("simplewhee"), "delimited stringprefix: discriminant without delimiter")
+	add(spd(), 'r', Str("simple"), "delimited stringprefix: discriminant alone")
+	add(spd(), 'r', Str("complexa:b"), "delimited stringprefix: discriminant glued to the rest")
+	add(spd(), 'r', Str("simpletons:x"), "delimited stringprefix: longer unknown discriminant")
+	add(spd(), 'r', Str("simpl:x"), "delimited stringprefix: shorter unknown discriminant")
+	add(spd(), 'r', Str(":x"), "delimited stringprefix: delimiter only")
 	sp1 := func() *SchTy { return SchUnion('p', SchM("a", 's', SchScalar('S')), SchM("b", 's', SchScalar('S'))) }
 	add(sp1(), 'r', Str("axyz"), "stringprefix with one-character prefixes")
 	add(sp1(), 'r', Str("a"), "stringprefix with one-character prefix and empty rest")
